@@ -618,6 +618,10 @@ class Exec:
             )
         if isinstance(v, VDict):
             return z3.BoolVal(len(v.items) > 0)
+        if type(v).__name__ == "VMatch":
+            return v.cond
+        if type(v).__name__ == "VRegex":
+            return z3.BoolVal(True)
         raise Unsupported("truthiness of %r" % (v,))
 
     def truth_paths(self, p, v):
@@ -890,6 +894,9 @@ class Exec:
             return VDyn(box(v))
         if isinstance(sort, Func):
             return v
+        if sort is Bool and not isinstance(v, (VBool, VDyn)) and what == "result" and \
+                self.current_contract is not None and "truthy_result" in self.current_contract.note:
+            return VBool(self.truth(p, v))     # result used for its truth value only (documented abstraction)
         if isinstance(v, VDyn):
             c = is_sort_cond(v.t, sort)
             if not self.implied(p, c):
